@@ -99,7 +99,8 @@ func genMConn(t *rapid.T) MConnCase {
 			ID:       []byte{0x20, 0x21, 0x30}[i],
 			Priority: rapid.IntRange(1, 5).Draw(t, "prio"),
 			QueueCap: rapid.IntRange(1, 3).Draw(t, "qcap"),
-			RecvCap:  rapid.OneOf(rapid.SampledFrom([]int{1, 3, 10, 100, 1023, 1024, 1025, 1027, 2048, 2051, 3000}), rapid.IntRange(1, 4000)).Draw(t, "cap"),
+			// (the receive buffer starts at 4096 bytes and grows: messages beyond that matter too)
+			RecvCap: rapid.OneOf(rapid.SampledFrom([]int{1, 3, 10, 100, 1023, 1024, 1025, 1027, 2048, 2051, 3000}), rapid.IntRange(1, 4000), rapid.SampledFrom([]int{4095, 4096, 4097, 5000, 8192, 9000, 12000})).Draw(t, "cap"),
 		})
 	}
 	bidir := rapid.Bool().Draw(t, "bidir")
